@@ -430,7 +430,9 @@ func appendSnapshotFunctions(b []byte, s *slip.Scope) []byte {
 		}
 		var fia []*slip.FuncInfo
 		p.EachFuncInfo(func(fi *slip.FuncInfo) {
-			if fi.Pkg == p {
+			// A function that is called by another but is not defined
+			// yet has no description and nothing to save.
+			if fi.Pkg == p && fi.Doc != nil {
 				fia = append(fia, fi)
 			}
 		})
